@@ -3,7 +3,7 @@
 use super::common::*;
 use super::{Property, Tier, Verdict};
 use crate::entropy::Rng;
-use crate::exec::{Op, ProbeMsg, RunLog, Scenario, When};
+use crate::exec::{Op, ProbeMsg, RunLog, Scenario, TokenSpec, When};
 use crate::krpc::{self, Val};
 use crate::log::{EpKind, Ev};
 use crate::stubs::StubCfg;
@@ -127,6 +127,12 @@ impl Property for C17 {
                 t += 10;
             }
         }
+        // queries that will be refused, with unusually long fields (the reply must still fit)
+        for k in 0..rng.range(0, 6) {
+            let from = addr(v6, 2, 61_000 + k as u32, 30_000);
+            let token = TokenSpec::Bytes(rng.bytes_in(0, 1300));
+            step(&mut sc, When::At(t + 20 + k), Op::Probe { from, to: node, msg: ProbeMsg::Announce { tid: rng.bytes_in(0, 32), id: pid, ih, port: Some(1), token }, timeout_ms: 3_000 });
+        }
         // the node's own traffic: a search with announce
         step(&mut sc, When::At(t + 100), Op::Search { node: 0, ih, announce: true });
         sc.params.insert("peers".into(), n_peers as i64);
@@ -164,7 +170,7 @@ impl Property for C17 {
         v
     }
     fn rule(&self) -> &'static str {
-        "3 of 4 cases: one real serving node with 0..160 stub contacts at chosen prefix depths; 0..520 valid announces for one info-hash (IPv4, IPv6 or mixed); get_peers and find_node probes with every want combination, both requester families, transaction ids of 0..32 bytes; plus the node's own bootstrap, refresh and announcing-search traffic; the length of every buffer passed to the socket is checked; 1 of 4 cases: the same monitor over scenarios of the C02, C03, C05 and C09 families. non-trivial = the node sent more than two datagrams; distinct = distinct order digests"
+        "3 of 4 cases: one real serving node with 0..160 stub contacts at chosen prefix depths; 0..520 valid announces for one info-hash (IPv4, IPv6 or mixed); get_peers and find_node probes with every want combination, both requester families, transaction ids of 0..32 bytes; announces with never-issued tokens of 0..1300 bytes; plus the node's own bootstrap, refresh and announcing-search traffic; the length of every buffer passed to the socket is checked; 1 of 4 cases: the same monitor over scenarios of the C02, C03, C05 and C09 families. non-trivial = the node sent more than two datagrams; distinct = distinct order digests"
     }
     fn assumptions(&self) -> Vec<&'static str> {
         vec!["known finding (open): a get_peers reply whose excess over 1500 bytes is accounted for by its values list is reported as KNOWN-FINDING, every other oversize datagram as VIOLATION"]
